@@ -113,10 +113,10 @@ def run (ws : List String) : Option String :=
   | ["sprepeat", f, s, reps] => do
     let s ← parseSp? s; let reps ← parseNats? reps
     pure (showSp (sparseRepeat (f = "1") s reps))
-  | ["spgetitem", s, items] => do
+  | ["spgetitem", f, s, items] => do
     let s ← parseSp? s
     let ixs ← (items.splitOn ";").mapM parseIx?
-    match sparseGetitem s ixs with
+    match sparseGetitem (f = "1") s ixs with
     | .error e => pure ("ERR " ++ e)
     | .ok (.inl v) => pure ("V " ++ showRat v)
     | .ok (.inr r) => pure (showSp r)
@@ -131,11 +131,12 @@ def run (ws : List String) : Option String :=
     let res : Tn Nat := ⟨p.shape, fun idx =>
       inversePermCore n (fun a => (p.get (idx.dropLast ++ [a])).num.toNat) (idx.getD (idx.length - 1) 0)⟩
     pure (showNatTn res)
-  | ["stableqr", r] => do
+  | ["stableqr", f, r] => do
     let r ← parseTn? r
     let k := min (r.shape.getD 0 0) (r.shape.getD 1 0)
-    let R' := stableQrR eps k (matOf r)
-    pure (showTn ⟨r.shape, fun i => R' (i.getD 0 0) (i.getD 1 0)⟩)
+    match stableQr (f = "1") eps k (r.shape.getD 1 0) (matOf r) with
+    | .ok R' => pure (showTn ⟨r.shape, fun i => R' (i.getD 0 0) (i.getD 1 0)⟩)
+    | .error e => pure ("ERR " ++ e)
   | ["pinv", m, n, qa, ra, qat, rat] => do
     let m ← m.toNat?; let n ← n.toNat?
     let qa ← parseTn? qa; let ra ← parseTn? ra; let qat ← parseTn? qat; let rat ← parseTn? rat
